@@ -174,6 +174,8 @@ BoundaryMenu ==
   \cup {ExprOnly(Call(f, <<Lit(TextV(<<97, 201, 98>>))>>)) : f \in {"upper", "lower", "length"}}
   \cup {ExprOnly(Call(f, <<Lit(TsV(<<2021, 3, 28, 2, 30, 59, 0>>))>>)) : f \in {"extract_year", "extract_month", "extract_day", "extract_hour", "extract_minute", "extract_second"}}
 LinesOne == {KV(A, IntV(1))}
+\* one line whose INT value lies near a boundary (the raw line, `*`, arithmetic and naming on it): the text of such a line is part of the model (IntTextB)
+LinesBig == {KV(A, I31(5)), KV(A, MaxV(0)), KV(B, MinV(0)), KV(A, MaxV(-1)), KV(B, MinV(1)), KV(A, I53(1)), KV(A, [t |-> "int", b |-> 2, i |-> 1]), KV(Null, IntV(1600000007))}
 
 \* a small menu for interrupt / incremental / file-split exploration
 CoreMenu == {PlainKV, Sel(<<P(K, "")>>, NoE, TRUE, NoLimit, "none"), Star(VPos, FALSE, NoLimit, "none"),
